@@ -115,12 +115,12 @@ def random_scen(rng, n, ops):
         k = rng.randint(2, 7)
         src = []
         for i in range(1, k + 1):
-            kind = rng.choice("++-G")
+            kind = rng.choice("++-?G")
             ln = rng.choice([1, 2, 3, 5, 8, 9])
             if kind == "G":
                 src.append({"k": "G", "name": "scaffold", "s": 1, "e": ln, "st": 0})
             else:
-                src.append({"k": "F", "name": f"c{i}", "s": 10 * i + 1, "e": 10 * i + ln, "st": 1 if kind == "+" else -1})
+                src.append({"k": "F", "name": f"c{i}", "s": 10 * i + 1, "e": 10 * i + ln, "st": 1 if kind == "+" else (-1 if kind == "-" else 0)})
         if all(r["k"] == "G" for r in src):
             continue
         tot = sum(r["e"] - r["s"] + 1 for r in src)
@@ -190,5 +190,5 @@ def main(tier, replay=None):
     }
     C.write_evidence(run, "C18", cov, assumptions=[
         "TLC 1.8.0 and CommunityModules Json are trusted", "projection of real rows/figures in harness/c18.py (prow, figures, project) is trusted",
-        "unknown-strand (0) fragments are outside the explored space", "exhaustive inside the stated bounds only"])
+        "exhaustive inside the stated bounds only"])
     C.finish(run, "C18", n)
